@@ -328,7 +328,7 @@ func (s *Server) addTarget(ctx context.Context, targetID configapi.TargetID, tar
 	targetVersion := configapi.TargetVersion(configurable.Version)
 
 	// If the target is present in the overrides, use its type/version information to lookup the plugin
-	if ttv, ok := overrides[string(targetID)]; ok {
+	if ttv, ok := overrides[string(targetID)]; ok && ttv != nil {
 		targetType = ttv.TargetType
 		targetVersion = ttv.TargetVersion
 	}
